@@ -3,6 +3,7 @@ package resolver
 
 import (
 	"fmt"
+	"sort"
 
 	shared "github.com/aquilax/hranoprovod-cli/v3"
 )
@@ -34,7 +35,7 @@ func NewResolver(db shared.DBNodeMap, c Config) Resolver {
 // Deprecated: Deprecated in favor of using Resolve function directly
 func (r Resolver) Resolve() error {
 	var err error
-	for name := range r.db {
+	for _, name := range sortedNames(r.db) {
 		if err = r.resolveNode(name, 0); err != nil {
 			return err
 		}
@@ -101,8 +102,19 @@ func resolveNode(maxDepth int, db shared.DBNodeMap, name string, level int) erro
 	return nil
 }
 
-func Resolve(c Config, db shared.DBNodeMap) (shared.DBNodeMap, error) {
+// sortedNames returns the recipe names in a fixed order, so that whether the
+// depth limit is hit does not depend on the map iteration order
+func sortedNames(db shared.DBNodeMap) []string {
+	names := make([]string, 0, len(db))
 	for name := range db {
+		names = append(names, name)
+	}
+	sort.Strings(names)
+	return names
+}
+
+func Resolve(c Config, db shared.DBNodeMap) (shared.DBNodeMap, error) {
+	for _, name := range sortedNames(db) {
 		if err := resolveNode(c.MaxDepth, db, name, 0); err != nil {
 			return db, err
 		}
